@@ -34,6 +34,8 @@ DropRight(s) == IF s # <<>> /\ IsSpace(s[Len(s)]) THEN DropRight(SubSeq(s, 1, Le
 TrimSpace(s) == DropRight(DropLeft(s))
 
 NoSpace(s) == SelectSeq(s, LAMBDA b : ~IsSpace(b))      \* bytes.Join(bytes.Fields(s), nil)
+\* the FASTQ reader's own isSpace for sequence letters also drops the Latin-1 blanks 0x85 and 0xA0
+NoSpaceLatin1(s) == SelectSeq(s, LAMBDA b : ~(IsSpace(b) \/ b \in {133, 160}))
 
 \* index of the first element that belongs to the set S, or 0
 RECURSIVE IndexFrom(_, _, _)
